@@ -1,11 +1,15 @@
 package c17
 
 import (
+	"bytes"
+	"io"
 	"regexp"
 	"sort"
 	"strings"
 
 	"github.com/zerx-lab/wordZero/pkg/document"
+
+	"wzverif/internal/gen"
 )
 
 // ---------------------------------------------------------------------------------------------
@@ -18,13 +22,37 @@ import (
 //	render   RenderToDocument (Entry 0) / RenderTemplateToDocument (Entry 1) of (Name, Datas[Data])
 //	remove   RemoveTemplate(Name)
 //	clear    ClearCache()
+//	edit     the caller goes on working with a document an earlier render returned: Edit is applied to the
+//	         Ref-th result kept so far (modulo their number); see retain.go
 type Op struct {
-	K     string   `json:"k"`
-	Name  string   `json:"name,omitempty"`
-	Src   string   `json:"src,omitempty"`
-	Doc   *DocSpec `json:"doc,omitempty"`
-	Entry int      `json:"entry,omitempty"`
-	Data  int      `json:"data,omitempty"`
+	K     string    `json:"k"`
+	Name  string    `json:"name,omitempty"`
+	Src   string    `json:"src,omitempty"`
+	Doc   *DocSpec  `json:"doc,omitempty"`
+	Entry int       `json:"entry,omitempty"`
+	Data  int       `json:"data,omitempty"`
+	Ref   int       `json:"ref,omitempty"`
+	Edit  *EditSpec `json:"edit,omitempty"`
+}
+
+// EditSpec is one call of the document API on a document a render returned.
+//
+//	image               AddImageFromData(Img)
+//	header | footer     AddHeader / AddFooter(Type, Text)       Type: default | first | even
+//	para                AddParagraph(Text)
+//	list | numlist      AddBulletList / AddNumberedList(Text)
+//	footnote            AddFootnote(Text, ...)
+//	title               SetTitle(Text)
+//	style               the name of style "Normal" is set to Text and a custom style is created
+//	runtext | celltext  the text of the first run of the first paragraph / of cell (0,0) of the first table is set to Text
+//	toc                 two headings are added (Text), then UpdateTOC
+//	autotoc             a heading is added (Text), then AutoGenerateTOC
+//	formula | bookmark  the content of the first formula paragraph / the name of the first bookmark of the body is set to Text
+type EditSpec struct {
+	K    string   `json:"k"`
+	Type string   `json:"type,omitempty"`
+	Text string   `json:"text,omitempty"`
+	Img  *gen.Img `json:"img,omitempty"`
 }
 
 // Conc is the concurrent phase run after the sequential history: every worker is a goroutine that waits on a
@@ -71,9 +99,15 @@ type DocNested struct {
 
 // DocElem is a paragraph (Runs; Heading 1-3 makes it a heading of its first run's text) or a table (Table, with
 // tables nested in its cells; CellFmt formats the text of every non-empty top-level cell).
+// A heading with Bookmark is added with AddHeadingParagraphWithBookmark (bookmark start / end elements next to it in
+// the body); Formula makes the element a formula paragraph (AddMathFormula, block level if Block).
 type DocElem struct {
-	Runs    []DocRun    `json:"runs,omitempty"`
-	Heading int         `json:"h,omitempty"`
+	Runs     []DocRun `json:"runs,omitempty"`
+	Heading  int      `json:"h,omitempty"`
+	Bookmark string   `json:"bm,omitempty"`
+	Formula  string   `json:"formula,omitempty"`
+	Block    bool     `json:"block,omitempty"`
+
 	Table   [][]string  `json:"table,omitempty"`
 	Nested  []DocNested `json:"nested,omitempty"`
 	CellFmt *DocRun     `json:"cellfmt,omitempty"`
@@ -114,14 +148,55 @@ func (n *DocNested) texts(out *[]string) {
 	}
 }
 
+// DocHF is a further header / footer part (first page, even pages) of a base document.
+type DocHF struct {
+	Footer bool   `json:"footer,omitempty"`
+	Type   string `json:"type"` // first | even | default
+	Text   string `json:"text"`
+}
+
+// DocSpec describes a base document. Build order: Elems; TOC (1 GenerateTOC, 2 AutoGenerateTOC, default
+// configuration); (Reopen 2: saved and opened again); default header; default
+// footer; HF in order; Image; ListItems; Footnote; orientation; (Reopen 1: saved and opened again); Saved.
+// The tables the library keeps per document (relationships, content types, parts, numbering, notes) grow by
+// appending: how many entries a base document has decides whether they have room to spare.
 type DocSpec struct {
 	Elems     []DocElem `json:"elems"`
 	Header    string    `json:"header,omitempty"`
 	HasHeader bool      `json:"hasHeader,omitempty"`
 	Footer    string    `json:"footer,omitempty"`
 	HasFooter bool      `json:"hasFooter,omitempty"`
+	HF        []DocHF   `json:"hf,omitempty"`
+	TOC       int       `json:"toc,omitempty"`      // a generated table of contents (content control / field paragraphs)
+	Image     *gen.Img  `json:"image,omitempty"`    // a picture in the base document itself (AddImageFromData)
+	ListItems int       `json:"list,omitempty"`     // bullet list items (numbering part)
+	Footnote  bool      `json:"footnote,omitempty"` // one footnote (footnotes part)
 	Landscape bool      `json:"landscape,omitempty"`
-	Saved     bool      `json:"saved,omitempty"` // ToBytes was called on the document before it was loaded
+	Reopen    int       `json:"reopen,omitempty"` // 0 | 1 | 2: the document went through ToBytes + OpenFromMemory (see above)
+	Saved     bool      `json:"saved,omitempty"`  // ToBytes was called on the document before it was loaded
+}
+
+func hfType(t string) document.HeaderFooterType {
+	switch t {
+	case "first":
+		return document.HeaderFooterTypeFirst
+	case "even":
+		return document.HeaderFooterTypeEven
+	}
+	return document.HeaderFooterTypeDefault
+}
+
+// reopened saves the document to memory and opens it again; the document itself if that fails.
+func reopened(doc *document.Document) *document.Document {
+	b, err := doc.ToBytes()
+	if err != nil {
+		return doc
+	}
+	d2, err := document.OpenFromMemory(io.NopCloser(bytes.NewReader(b)))
+	if err != nil || d2 == nil || d2.Body == nil {
+		return doc
+	}
+	return d2
 }
 
 func (r DocRun) tf() *document.TextFormat {
@@ -160,6 +235,10 @@ func (d *DocSpec) build() *document.Document {
 			for k := range e.Nested {
 				addNested(t, &e.Nested[k], 4000)
 			}
+		case e.Formula != "":
+			doc.AddMathFormula(e.Formula, e.Block)
+		case e.Heading > 0 && len(e.Runs) > 0 && e.Bookmark != "":
+			doc.AddHeadingParagraphWithBookmark(e.Runs[0].T, e.Heading, e.Bookmark)
 		case e.Heading > 0 && len(e.Runs) > 0:
 			doc.AddHeadingParagraph(e.Runs[0].T, e.Heading)
 		default:
@@ -179,14 +258,43 @@ func (d *DocSpec) build() *document.Document {
 			}
 		}
 	}
+	switch d.TOC {
+	case 1:
+		doc.GenerateTOC(document.DefaultTOCConfig())
+	case 2:
+		doc.AutoGenerateTOC(document.DefaultTOCConfig())
+	}
+	if d.Reopen == 2 {
+		doc = reopened(doc)
+	}
 	if d.HasHeader {
 		doc.AddHeader(document.HeaderFooterTypeDefault, d.Header)
 	}
 	if d.HasFooter {
 		doc.AddFooter(document.HeaderFooterTypeDefault, d.Footer)
 	}
+	for _, h := range d.HF {
+		if h.Footer {
+			doc.AddFooter(hfType(h.Type), h.Text)
+		} else {
+			doc.AddHeader(hfType(h.Type), h.Text)
+		}
+	}
+	if d.Image != nil {
+		im := *d.Image
+		doc.AddImageFromData(append([]byte(nil), imageData(im)...), im.Name, document.ImageFormat(im.Fmt), im.W, im.H, nil)
+	}
+	for i := 0; i < d.ListItems; i++ {
+		doc.AddBulletList("item", 0, document.BulletTypeDot)
+	}
+	if d.Footnote {
+		doc.AddFootnote("see note", "the note")
+	}
 	if d.Landscape {
 		doc.SetPageOrientation(document.OrientationLandscape)
+	}
+	if d.Reopen == 1 {
+		doc = reopened(doc)
 	}
 	if d.Saved {
 		doc.ToBytes()
@@ -218,6 +326,9 @@ func (d *DocSpec) texts() []string {
 	if d.HasFooter {
 		out = append(out, d.Footer)
 	}
+	for _, h := range d.HF {
+		out = append(out, h.Text)
+	}
 	return out
 }
 
@@ -227,6 +338,7 @@ func (d *DocSpec) texts() []string {
 var (
 	reExtends = regexp.MustCompile(`\{\{extends\s+"([^"]+)"\}\}`)
 	reBlock   = regexp.MustCompile(`\{\{#block\s+"([^"]+)"\}\}`)
+	reImage   = regexp.MustCompile(`\{\{#image\s+(\w+)\}\}`)
 )
 
 // extendsOf returns the name of the template the source extends ("" if none).
